@@ -508,3 +508,26 @@ for _k in (1, 2, 3, 4, 5):
     benign_patch('ben14-r%d' % _k, ALL)                         # RRT* / RRT-Connect: nearest_node(&[Node]) helper, map_or cost, let-else + != Reached, GrowingTree + matches!, index before push
     benign_patch('ben15-r%d' % _k, ['C03', 'C04', 'C06', 'C08', 'C09', 'C10', 'C11', 'C12', 'C13', 'C14'])   # spaces: validate helper + ?, zip / all, closure-parameterised weighted_norm, if-expressions, slice patterns
     benign_patch('ben16-r%d' % _k, ALL)                         # PRM: let-else + all, filter/map/collect connections, connectable_milestones(), successors walk, direct return from the BFS
+
+# ---------------------------------------------------------------- C09.cut / C09.repr / C10.repr (round 6)
+case('benign-c09-so3-exact-cut', ['C09', 'C10', 'C13'], [],
+     (SO3, "        let clamped_dot = abs_dot.min(1.0);\n        2.0 * clamped_dot.acos()",
+      "        if abs_dot >= 1.0 {\n            return 0.0;\n        }\n        2.0 * abs_dot.acos()"))
+case('c09-so3-distance-no-abs', ['C09'], ['C09.repr'],
+     (SO3, "                .abs();\n        let clamped_dot = abs_dot.min(1.0);", "                .max(-1.0);\n        let clamped_dot = abs_dot.min(1.0);"))
+case('c10-so3-slerp-no-sign', ['C10'], ['C10.repr'],
+     (SO3, "            let s1 = (t * theta).sin() / sin_theta * sign;", "            let s1 = (t * theta).sin() / sin_theta;"))
+
+# ---------------------------------------------------------------- round 6 (seeded)
+seeded('seeded-R6C01-unvalidated-goal-sample', ['C01', 'C02'], ['C01.prov'])
+seeded('seeded-R6C03-multi-start-unchecked-first-edge', ['C03', 'C18'], ['C03.link'])
+seeded('seeded-R6C04-so2-tie-wrapped', ['C04'], ['C04.convex'])
+seeded('seeded-R6C07-hashset-neighbours', ['C07', 'C17'], ['C07.source'])
+seeded('seeded-R6C08-lazy-start-validity', ['C01', 'C08'], ['C01.gate'])
+seeded('seeded-R6C09-so3-distance-cut', ['C09'], ['C09.cut'])
+seeded('seeded-R6C10-lerp-without-flip', ['C10'], ['C10.repr'])
+seeded('seeded-R6C13-weight-clamped-resolution', ['C13', 'C03'], ['C13.match'])
+seeded('seeded-R6C14-so2-modulo-bias', ['C14'], ['C14.draw'])
+seeded('seeded-R6C15-cost-lowered-before-check', ['C15', 'C17'], ['C17.cost'])
+case('c04-so2-tie-nonstrict', ['C04'], ['C04.convex'],
+     (SO2, "        if diff_to_from > PI {", "        if diff_to_from >= PI {"))
